@@ -941,7 +941,7 @@ func comps2(v Val) []string {
 }
 
 func (e *Enc) watchVal(label string, v Val, h *Heap, depth int, seen map[string]bool) {
-	if depth > 7 || len(e.watch) > 4000 {
+	if depth > 7 || len(e.watch) > 1500 {
 		return
 	}
 	switch v.K {
